@@ -14,6 +14,8 @@ CONSTANTS
   EvictingLookup = TRUE
   HonourContext = FALSE
   RejectSeenIds = FALSE
+  RegisterBeforeExistsCheck = FALSE
+  MaxDup = 0
   Emit = FALSE
   Only = "all"
 INIT Init
